@@ -85,27 +85,42 @@ def render_formula(f, leaf):
 
 
 def program_for(sc):
+    """leaf_style 'name': every leaf is its own event / flow (EvA, leaf a); 'param': all leaves share one event
+    name / one flow and differ only in an argument (Ev(k=1), leaf 1)."""
     form = sc["form"]
     f = sc["formula"]
+    param = sc.get("leaf_style") == "param"
+    k_of = lambda l: LEAVES.index(l) + 1
+    ev_leaf = (lambda l: "Ev(k=%d)" % k_of(l)) if param else (lambda l: "Ev%s()" % l)
+    flow_leaf = (lambda l: "leaf %d" % k_of(l)) if param else (lambda l: "leaf %s" % l.lower())
     lines = []
     if form == "match":
-        stmt = "  match " + render_formula(f, lambda l: "Ev%s()" % l)
+        stmt = "  match " + render_formula(f, ev_leaf)
         body = [stmt, "  send Done()"]
     elif form == "await":
-        body = ["  await " + render_formula(f, lambda l: "leaf %s" % l.lower()), "  send Done()"]
+        body = ["  await " + render_formula(f, flow_leaf), "  send Done()"]
     else:
         f2 = sc["formula2"]
-        body = ["  when " + render_formula(f, lambda l: "leaf %s" % l.lower()), "    send Done()", "  or when " + render_formula(f2, lambda l: "leaf %s" % l.lower()), "    send Done2()"]
+        body = ["  when " + render_formula(f, flow_leaf), "    send Done()", "  or when " + render_formula(f2, flow_leaf), "    send Done2()"]
     lines.append("flow main")
     lines.append("  match Go()")
     lines += body
     lines.append("  match Never()")
     lines.append("")
     if form != "match":
-        used = leaves_of(f) + (leaves_of(sc["formula2"]) if form == "when" else [])
-        for l in sorted(set(used)):
-            lines += ["flow leaf %s" % l.lower(), "  match Ev%s()" % l, ""]
+        if param:
+            lines += ["flow leaf $k", "  match Ev(k=$k)", ""]
+        else:
+            used = leaves_of(f) + (leaves_of(sc["formula2"]) if form == "when" else [])
+            for l in sorted(set(used)):
+                lines += ["flow leaf %s" % l.lower(), "  match Ev%s()" % l, ""]
     return "\n".join(lines)
+
+
+def leaf_event(sc, l):
+    if sc.get("leaf_style") == "param":
+        return {"type": "Ev", "k": LEAVES.index(l) + 1}
+    return {"type": "Ev%s" % l}
 
 
 class C07(InterpProp):
@@ -116,7 +131,7 @@ class C07(InterpProp):
             "that becomes active after Go(); executed under ALL delivery orders of its leaf events when it has <= 5 leaves (exhaustive for that formula), 60 seeded orders otherwise, each order with seeded "
             "duplicates, irrelevant events and leaf events delivered before Go(). evaluations = (formula, order) executions; non-trivial = formulas with both and and or; distinct = distinct (form, formula, order)")
     exhaustive_parts = ["all delivery orders of the leaf events for every generated formula with <= 5 leaves"]
-    expected_probes = ["form_match", "form_await", "form_when", "exhaustive_orders", "premature_delivery", "duplicate_delivery", "tie_break_decided"]
+    expected_probes = ["form_match", "form_await", "form_when", "leaves_by_name", "leaves_by_param", "exhaustive_orders", "premature_delivery", "duplicate_delivery", "tie_break_decided"]
     quick_runs = 700
     thorough_runs = 60000
     chunk = 20
@@ -150,6 +165,7 @@ class C07(InterpProp):
         else:
             sc["orders"] = "all" if len(used) <= 5 else [d.shuffle(used, "ord", i) for i in range(60)]
         sc["dnf_groups"] = size
+        sc["leaf_style"] = d.choice(["name", "param"], "leafstyle")
         sc["noise_seed"] = d.randint(0, 1 << 30, "noise")
         sc["tie_seed"] = d.randint(0, 1 << 30, "tie")
         return sc
@@ -195,7 +211,7 @@ class C07(InterpProp):
                 elif kind == "noise":
                     ev = {"type": "Irrelevant"}
                 else:
-                    ev = {"type": "Ev%s" % l}
+                    ev = leaf_event(sc, l)
                 out = itp.deliver(ev)
                 marks.append([o["type"] for o in out if o["type"] in ("Done", "Done2")])
             bad = I.check_quiescence(itp.state)
@@ -210,6 +226,7 @@ class C07(InterpProp):
         program = program_for(sc)
         form = sc["form"]
         out.probe("form_" + form)
+        out.probe("leaves_by_" + sc.get("leaf_style", "name"))
         leaves = sc["leaves"]
         if sc["orders"] == "all":
             orders = [list(p) for p in itertools.permutations(leaves)]
@@ -278,7 +295,7 @@ class C07(InterpProp):
                             pin={"orders": [order], "explicit_deliveries": dl})
                 break
             if mixed or f2 is not None:
-                out.nontrivial_sigs.append((form, G.render_formula(f1), tuple(order)))
+                out.nontrivial_sigs.append((form, sc.get("leaf_style"), G.render_formula(f1), tuple(order)))
         out.digest = tr.digest()
         out.interleaving = (form, G.render_formula(f1))
         out.sample = {"form": form, "statement": program.split("\n")[2].strip(), "leaves": leaves, "orders_executed": len(orders), "example_deliveries": [("%s:%s" % (k, l)) if l else k for k, l in self.deliveries_for(sc, orders[0], 0)]}
